@@ -61,7 +61,7 @@ def main():
     old['engines'][0]['kind_free_text'] = ('Coq 8.16 development (model incl. Gallina SHA-256, proofs, pinned property theorems), extracted OCaml model driver, '
                                            'kernel-evaluated cases, Rust harness over the real crate (isolated, watchdog, fault injection), Python orchestrator with '
                                            'generators (16 scenario families + small-scope enumeration) and independent oracles')
-    old['notes'] = ('Seven genuine defects (F1-F7) were found and repaired in /repo by `fix:` commits; see /verif/known_findings.json and DESIGN.md sections 11 and 14. '
+    old['notes'] = ('Seven genuine defects (F1-F7) were found and repaired in /repo by `fix:` commits; see /verif/known_findings.json and DESIGN.md sections 11 and 14. An eighth (F8: List::bulk_update trusts the max_index of a MaxMap that was filled through get_mut_with/get_cow_with) is recorded as a known finding, not repaired: the C15 check prints KNOWN-FINDING for it and exits 0 (DESIGN.md 14.3). '
                     'VERIF_REPO=<dir> (used only by tools/seedeval.py) points a check at a scratch checkout instead of /repo.')
     json.dump(old, open('/verif/MANIFEST.json', 'w'), indent=1)
     print('MANIFEST.json: %d checks' % len(checks))
